@@ -313,11 +313,22 @@ def _alias_arms(e: ast.AST) -> list[ast.AST]:
     return []
 
 
-INPLACE_OK = {
-    # (function, local): why `+=` on it cannot reach the caller's object
-    ("btclib.descriptors.miniscript._read_name", "end"): "an int position",
-    ("btclib.ecc.dsa.Sig.assert_valid", "r"): "an int scalar",
-}
+def _int_typed(ctx: Ctx, fi: FuncInfo, e: ast.AST) -> bool:
+    """Is the aliased source an int by its declaration (a parameter or a dataclass field annotated int)? `+=` rebinds an int."""
+    if isinstance(e, ast.Name):
+        a = fi.node.args
+        for p_ in a.posonlyargs + a.args + a.kwonlyargs:
+            if p_.arg == e.id and p_.annotation is not None:
+                return str(norm(p_.annotation)).replace(" ", "") in ("int", "int|None", "Integer") and "Integer" not in str(norm(p_.annotation)) or str(norm(p_.annotation)) == "int"
+    if isinstance(e, ast.Attribute) and isinstance(e.value, ast.Name) and e.value.id == "self" and fi.cls is not None:
+        ann = getattr(fi.cls, "field_annotations", None)
+        ann = ann() if callable(ann) else ann
+        if isinstance(ann, dict) and e.attr in ann:
+            return str(ann[e.attr]).replace(" ", "") in ("int", "int|None")
+        for st in fi.cls.node.body:
+            if isinstance(st, ast.AnnAssign) and isinstance(st.target, ast.Name) and st.target.id == e.attr:
+                return str(norm(st.annotation)).replace(" ", "") in ("int", "int|None")
+    return False
 
 
 def rule_no_inplace_growth(ctx: Ctx, rep: Report, rule: str, module_prefixes: tuple[str, ...], floor: int) -> None:
@@ -344,8 +355,8 @@ def rule_no_inplace_growth(ctx: Ctx, rep: Report, rule: str, module_prefixes: tu
                 if not arms:
                     continue
                 n += 1
-                why = INPLACE_OK.get((q, nm))
-                rep.ob(rule, f"{q}:{nm}", why is not None, fi.where(aug), f"reviewed: {why}" if why else
+                why = "an int by its declaration: += rebinds it" if all(_int_typed(ctx, fi, r) for r in arms) else None
+                rep.ob(rule, f"{q}:{norm(arms[0])}+=", why is not None, fi.where(aug), why if why else
                        f"`{norm(d)[:60]}` then `{norm(aug)[:40]}`: when `{norm(arms[0])}` is a bytearray the += extends the caller's own object")
     rep.ob(rule, "scanned", True, "btclib:1", f"{n} grown aliases of parameters or their fields found in {module_prefixes}")
     rep.floor(rule, floor)
